@@ -114,6 +114,43 @@ def check(rep, tier, seed):
             elif st in DEG1:
                 cases.append((st, sh, d2)); expect.append((None if r is None else r * float(c), (st, sh, data)))
     compare("scale", cases, expect)
+    # the same relations when the statistics are asked for TOGETHER in one invocation (scale-free and scale-dependent ones
+    # side by side): every field must behave as it does alone
+    mixed = {1: ["pi", "theta", "s", "sum", "d-tajima"], 2: ["f2", "fst", "pi-xy", "s", "sum"], 3: ["f3", "s", "sum"], 4: ["f4", "s", "sum"]}
+    seen_sh = set()
+    mj, mm = [], []
+    for st, sh, data in base:
+        if tuple(sh) in seen_sh or len(sh) not in mixed:
+            continue
+        seen_sh.add(tuple(sh))
+        req = mixed[len(sh)][:]; rng.shuffle(req)
+        for c in (1, 4, Fraction(1, 64)):
+            d2 = [repr(float(Fraction(x) * c)) if isinstance(c, Fraction) else str(x * c) for x in data]
+            mj.append((["stat", "-s", ",".join(req), "--precision", "15"], text_spectrum(sh, d2))); mm.append((req, sh, data, c))
+    mres = run_cli_many(mj)
+    for k in range(0, len(mj), 3):
+        req, sh, data, _ = mm[k]
+        rows = []
+        for (rc, so, se) in mres[k:k + 3]:
+            try:
+                rows.append([float(x) for x in so.decode().strip().split(",")] if rc == 0 else None)
+            except ValueError:
+                rows.append(None)
+        rep.count("inv:mixed-invocation", "stat -s %s on %s" % (",".join(req), fmt(sh)), True, n=3)
+        if any(r is None or len(r) != len(req) for r in rows):
+            continue      # a statistic undefined for this shape fails the whole invocation: covered by C06
+        for j, stn in enumerate(req):
+            single = refv.get((stn, tuple(sh), tuple(data)))
+            for r, c in zip(rows, (1, 4, Fraction(1, 64))):
+                # D statistics are neither scale-free nor homogeneous: compared at scale 1 only
+                want = None if single is None else (single if (stn in DEG0 or c == 1) else (single * float(c) if stn in DEG1 else None))
+                if want is None or (isinstance(want, float) and (math.isnan(want) or math.isinf(want))):
+                    continue
+                if not close(r[j], want):
+                    rep.fail(kind="property-oracle", cls="inv:mixed-invocation:" + stn, case="stat -s %s, spectrum %s scaled by %s" % (",".join(req), fmt(sh), c),
+                             argv=["sfs", "stat", "-s", ",".join(req), "--precision", "15"],
+                             stdin=text_spectrum(sh, [repr(float(Fraction(x) * c)) if isinstance(c, Fraction) else str(x * c) for x in data]).decode(),
+                             observed=r[j], expected=want, detail="%s asked for together with %s does not have the value / scaling behaviour it has alone" % (stn, ",".join(x for x in req if x != stn)))
     # f3 / f4 from f2 of marginals
     for st, nd, combos in (("f3", 3, [((2,), 1), ((1,), 1), ((0,), -1)]), ("f4", 4, [((1, 2), 1), ((0, 3), 1), ((1, 3), -1), ((0, 2), -1)])):
         items = [(sh, data) for s, sh, data in base if s == st]
